@@ -55,9 +55,13 @@ func init() {
 			"and mempool-only transactions (valid config-update proposals for every option family, never delivered); no crashes. Oracle: transcripts of noisy replicas equal the quiet one. Non-trivial: >=1 CheckTx with code 0 and >=1 CheckTx strictly inside a block, >=5 block attempts compared; " +
 			"distinct = distinct fingerprints.",
 		MakeSetup: func(rng *rand.Rand, tier string, seed uint64) *Setup {
-			k := SwarmKnobs(rng)
-			k.MaxGas = drawMaxGas(rng)
-			su := &Setup{Knobs: k, Sess: gen.NewSession()}
+			nb := 12 + rng.Intn(25)
+			if tier == "thorough" {
+				nb = 15 + rng.Intn(50)
+			}
+			su := drawWorkload(rng, tier, seed, 3, nb)
+			su.Knobs.MaxGas = drawMaxGas(rng)
+			k := su.Knobs
 			su.Replicas = append(su.Replicas, core.ReplicaConf{Identity: "x0", Quiet: true, Recent: 10, Every: 100, Cycles: 10, WitnessInitEarly: true})
 			n := 2 + rng.Intn(2)
 			for i := 0; i < n; i++ {
@@ -67,18 +71,17 @@ func init() {
 				}
 				su.Replicas = append(su.Replicas, rc)
 			}
-			su.Gens = allGens(rng)
-			su.Blocks = 12 + rng.Intn(25)
-			if tier == "thorough" {
-				su.Blocks = 15 + rng.Intn(50)
-			}
 			su.MaxTx = 10
 			rate := []float64{0.15, 0.3, 0.6}[rng.Intn(3)]
 			// mempool-only transactions: valid config-update proposals that are checked but never delivered
 			var mempoolOnly [][]byte
 			su.Policy = &NoisePolicy{Rng: rng, Sess: su.Sess, CheckRate: rate, Extra: func() [][]byte { return mempoolOnly }}
 			absent := AbsentHook(0.05)
+			borrowed := su.PlanHook
 			su.PlanHook = func(e *core.Engine, rng *rand.Rand, st *core.Step, gc *gen.Ctx) {
+				if borrowed != nil {
+					borrowed(e, rng, st, gc)
+				}
 				absent(e, rng, st, gc)
 				if gc != nil && e.C.Height() >= 1 {
 					mempoolOnly = mempoolOnly[:0]
